@@ -229,7 +229,9 @@ def dual_helpers_rule(ctx, rule="ROLE-dual-helpers"):
         m.funcs["jax.interpreters.ad.Zero.from_primal_value"] = lambda x: Opq("Zero", x)
         for nm in ("jax.numpy.result_type", "jax.dtypes.result_type", "numpy.result_type", "jax.numpy.dtype", "numpy.dtype", "jax.dtypes.dtype"):
             m.funcs[nm] = lambda x, *a, **k: dtype_of(x)
-        for nm in ("jax.numpy.asarray", "jax.numpy.array", "numpy.asarray"):
+        for nm in ("jax.numpy.asarray", "jax.numpy.array", "numpy.asarray", "jax._src.core.get_aval", "jax.core.get_aval", "jax.typeof", "jax._src.core.typeof",
+                   "jax.api_util.shaped_abstractify", "jax._src.api_util.shaped_abstractify", "jax.core.raise_to_shaped"):
+            # the abstract value of a model value carries the same dtype: the model value stands for it
             m.funcs[nm] = lambda x, *a, **k: x
         for nm in ("jax.numpy.issubdtype", "jax.dtypes.issubdtype", "numpy.issubdtype"):
             m.funcs[nm] = issub
